@@ -115,23 +115,31 @@ Dropped(fl, c, state) == fl.empick /\ c.k \in {"pickle0", "pickle1"} /\ state = 
 
 \* ---- OrderedSet (private list PL(s), table[s])
 PL(im, s)       == im.nl + s
-IOAdd1(im, s, a) ==       \* -> [im, ok]
-    IF a.k = "U" THEN [im |-> im, ok |-> FALSE]
-    ELSE IF im.table[s][a.n] # 0 THEN [im |-> im, ok |-> TRUE]
+\* add(item): `item not in self` (first hash), append to the order, `self.__table[item] = node` (second hash; on an
+\* exception the node is removed again and the exception re-raised)  -> [im, ok, e]
+IOAdd1(im, s, a) ==
+    IF Fails1(a) THEN [im |-> im, ok |-> FALSE, e |-> a]
+    ELSE IF a.k = "U" THEN LET y  == IFresh(im)
+                               i1 == IAppend(im, PL(im, s), y, a)
+                           IN [im |-> IGarbage(IRemoveNode(i1, PL(im, s), y).im, y), ok |-> FALSE, e |-> a]
+    ELSE IF im.table[s][a.n] # 0 THEN [im |-> im, ok |-> TRUE, e |-> NoItem]
     ELSE LET y == IFresh(im) IN
-         [im |-> [IAppend(im, PL(im, s), y, a) EXCEPT !.table[s][a.n] = y], ok |-> TRUE]
-IOAddAll(im, s, as) == FoldLeft(LAMBDA acc, it : IF acc.ok THEN IOAdd1(acc.im, s, it) ELSE acc, [im |-> im, ok |-> TRUE], as)
+         [im |-> [IAppend(im, PL(im, s), y, a) EXCEPT !.table[s][a.n] = y], ok |-> TRUE, e |-> NoItem]
+IOAddAll(im, s, as) == FoldLeft(LAMBDA acc, it : IF acc.ok THEN IOAdd1(acc.im, s, it) ELSE acc,
+                                [im |-> im, ok |-> TRUE, e |-> NoItem], as)
 IOReset(im, s)  == [IClear(im, PL(im, s)) EXCEPT !.table[s] = [n \in DOMAIN @ |-> 0]]
+\* a key whose second hash() would fail is hashed once here: it is simply absent
+Absent(im, s, a) == a.k = "U" \/ im.table[s][a.n] = 0
 IORemove(im, s, a) ==
-    IF a.k = "U" THEN IR(im, Err("TypeError"))
-    ELSE IF im.table[s][a.n] = 0 THEN IR(im, Err("KeyError"))
+    IF Fails1(a) THEN IR(im, UErr(a))
+    ELSE IF Absent(im, s, a) THEN IR(im, Err("KeyError"))
     ELSE LET x == im.table[s][a.n]
              o == IRemoveNode([im EXCEPT !.table[s][a.n] = 0], PL(im, s), x)
          IN IR(IGarbage(o.im, x), o.r)
 \* _reorder(item, reinserter)
 IOReorder(im, fl, s, a, how, refnode) ==
-    IF a.k = "U" THEN IR(im, Err("TypeError"))
-    ELSE IF im.table[s][a.n] = 0 THEN IR(im, Err("KeyError"))
+    IF Fails1(a) THEN IR(im, UErr(a))
+    ELSE IF Absent(im, s, a) THEN IR(im, Err("KeyError"))
     ELSE LET x  == im.table[s][a.n]
              l  == PL(im, s)
              i1 == IRemoveNode(im, l, x).im
@@ -144,8 +152,8 @@ IOReorder(im, fl, s, a, how, refnode) ==
          IN IR(IGarbage([i2 EXCEPT !.table[s][a.n] = y], x), ROk)
 IORel(im, fl, s, a, b, how) ==
     IF SEq(a, b) THEN IR(im, Err("ValueError"))
-    ELSE IF b.k = "U" THEN IR(im, Err("TypeError"))
-    ELSE IF im.table[s][b.n] = 0 THEN IR(im, Err("KeyError"))
+    ELSE IF Fails1(b) THEN IR(im, UErr(b))
+    ELSE IF Absent(im, s, b) THEN IR(im, Err("KeyError"))
     ELSE IOReorder(im, fl, s, a, how, im.table[s][b.n])
 IOItems(im, s)  == IListVals(im, PL(im, s))
 
@@ -165,7 +173,7 @@ ICall(im, its, fl, c) ==
       [] c.op = "nlink"     -> IR(ILink(im, c.x, c.y), ROk)
       [] c.op = "ninsbefore" -> INInsBefore(im, c.x, c.y)
       [] c.op = "ninsafter" -> INInsAfter(im, c.x, c.y)
-      [] c.op = "lnew"      -> IR(IExtend(im, c.l, c.f, c.vs), ROk)
+      [] c.op = "lnew"      -> IF c.k = "boom" THEN IR(im, Err("Boom")) ELSE IR(IExtend(im, c.l, c.f, c.vs), ROk)
       [] c.op = "lbool"     -> IR(im, RBool(im.head[c.l] # 0))
       [] c.op = "llen"      -> IR(im, R("int", im.size[c.l]))
       [] c.op = "lhead"     -> IR(im, RNode(im.head[c.l]))
@@ -200,11 +208,12 @@ ICall(im, its, fl, c) ==
                                IN IR(im, IF x = 0 THEN RStop
                                          ELSE IF it.k \in {"fn", "bn"} THEN RNode(x) ELSE RVal(im.ival[x]))
       [] c.op = "onew"      -> LET o == IOAddAll(IOReset(im, c.l), c.l, c.as) IN
-                               IF o.ok THEN IR(o.im, ROk) ELSE IR(im, Err("TypeError"))
-      [] c.op \in {"oadd", "oappend"} -> LET o == IOAdd1(im, c.l, c.a) IN IR(o.im, IF o.ok THEN ROk ELSE Err("TypeError"))
+                               IF ~o.ok THEN IR(im, UErr(o.e)) ELSE IF c.k = "boom" THEN IR(im, Err("Boom")) ELSE IR(o.im, ROk)
+      [] c.op \in {"oadd", "oappend"} -> LET o == IOAdd1(im, c.l, c.a) IN IR(o.im, IF o.ok THEN ROk ELSE UErr(o.e))
       [] c.op = "oremove"   -> IORemove(im, c.l, c.a)
-      [] c.op = "oextend"   -> LET o == IOAddAll(im, c.l, c.as) IN IR(o.im, IF o.ok THEN ROk ELSE Err("TypeError"))
-      [] c.op = "ohas"      -> IF c.a.k = "U" THEN IR(im, Err("TypeError")) ELSE IR(im, RBool(im.table[c.l][c.a.n] # 0))
+      [] c.op = "oextend"   -> LET o == IOAddAll(im, c.l, c.as) IN
+                               IR(o.im, IF ~o.ok THEN UErr(o.e) ELSE IF c.k = "boom" THEN Err("Boom") ELSE ROk)
+      [] c.op = "ohas"      -> IF Fails1(c.a) THEN IR(im, UErr(c.a)) ELSE IR(im, RBool(~Absent(im, c.l, c.a)))
       [] c.op = "olen"      -> IR(im, R("int", im.size[PL(im, c.l)]))
       [] c.op \in {"oiter", "ogetstate"} -> IR(im, R("items", IOItems(im, c.l)))
       [] c.op = "orev"      -> IR(im, R("items", IVals(im, IWalkBack(im, im.tail[PL(im, c.l)]))))
